@@ -224,6 +224,97 @@ fn scenario(pr: &Params) -> Verdict {
     e3::finish(v)
 }
 
+/// A peer with an announced identity goes away (its writes fail) and a new connection announces
+/// the same identity: afterwards the rotation must again be strict (one turn per connected peer).
+fn reconnect_scenario(ty: Ty, observed: bool, policy: u8) -> Verdict {
+    world::reset(world::WorldCfg { nested_env: false, yields: true, select: false, policy, coop: false });
+    let a1 = e3::raw_conn("A1");
+    let b = e3::raw_conn("B");
+    let a2 = e3::raw_conn("A2");
+    a1.send(&rc::handshake(ty.peer_type(), Some(b"A")));
+    b.send(&rc::handshake(ty.peer_type(), Some(b"B")));
+    a2.send(&rc::handshake(ty.peer_type(), Some(b"A")));
+    if ty == Ty::Req {
+        for c in [a1, b, a2] {
+            e3::make_echo_peer(c);
+        }
+    }
+    let sock = AnySocket::new(ty, None);
+    let obs = std::rc::Rc::new(std::cell::RefCell::new(Vec::<String>::new()));
+    let obs2 = obs.clone();
+    world::spawn_app("app", async move {
+        let mut sock = sock;
+        let _ = e3::attach_raw(sock.backend(), a1).await;
+        let _ = e3::attach_raw(sock.backend(), b).await;
+        // two sends while both are healthy
+        for i in 0..2 {
+            let r = sock.send(msg(&[format!("warm{}", i).into_bytes()])).await;
+            obs2.borrow_mut().push(format!("warm{} -> {}", i, e3::ok_or_err(&r)));
+            if ty == Ty::Req && r.is_ok() {
+                let _ = world::until_idle(sock.recv()).await;
+            }
+        }
+        // the first peer's connection dies
+        world::set_wmode(a1.from_lib, WMode::Fail(std::io::ErrorKind::BrokenPipe));
+        if observed {
+            // the socket notices through failing sends before the peer comes back
+            for i in 0..2 {
+                let r = sock.send(msg(&[format!("notice{}", i).into_bytes()])).await;
+                obs2.borrow_mut().push(format!("notice{} -> {}", i, e3::ok_or_err(&r)));
+                if ty == Ty::Req && r.is_ok() {
+                    let _ = world::until_idle(sock.recv()).await;
+                }
+            }
+        }
+        // it reconnects under the same identity
+        let r = e3::attach_raw(sock.backend(), a2).await;
+        obs2.borrow_mut().push(format!("reattach -> {}", e3::ok_or_err(&r)));
+        // from now on: two connected peers, strict alternation expected (allowing failures on the dead connection to flush out first)
+        let mut targets = Vec::new();
+        for i in 0..8 {
+            let (ta, tb) = (app_part(&a2.tap()).len(), app_part(&b.tap()).len());
+            let r = sock.send(msg(&[format!("m{}", i).into_bytes()])).await;
+            let (ga, gb) = (app_part(&a2.tap()).len() - ta, app_part(&b.tap()).len() - tb);
+            let t = if r.is_err() { 'x' } else if ga > 0 && gb == 0 { 'A' } else if gb > 0 && ga == 0 { 'B' } else { '?' };
+            targets.push(t);
+            if ty == Ty::Req && r.is_ok() {
+                let _ = world::until_idle(sock.recv()).await;
+            }
+        }
+        obs2.borrow_mut().push(format!("targets {}", targets.iter().collect::<String>()));
+        world::wait_cond("never").await;
+        drop(sock);
+    });
+    let end = world::run(e3::HORIZON);
+    let mut v = Verdict::default();
+    v.truncated = end != world::RunEnd::Quiescent;
+    let what = format!("{}: peer A goes away ({}), a new connection announces identity A again", ty.name(), if observed { "noticed through failing sends" } else { "not yet noticed" });
+    for p in world::panics() {
+        v.violate("panic", format!("{}: {}", what, p));
+    }
+    let o = obs.borrow().clone();
+    for l in &o {
+        world::log(l.clone());
+    }
+    if let Some(t) = o.iter().find_map(|l| l.strip_prefix("targets ")) {
+        // drop leading failures (the dead connection being flushed out), then the last 4 successful sends must alternate
+        let ok: Vec<char> = t.chars().filter(|c| *c != 'x').collect();
+        let tail: Vec<char> = ok.iter().rev().take(4).rev().copied().collect();
+        let alternates = tail.len() == 4 && tail.windows(2).all(|w| w[0] != w[1]) && !tail.contains(&'?');
+        let late_failures = t.chars().skip(3).any(|c| c == 'x');
+        if !alternates || late_failures {
+            v.violate(
+                format!("rotation-after-reconnect/{}", if observed { "observed" } else { "unobserved" }),
+                format!("{}: the next 8 sends went to {} (A = the new connection, B = the other peer, x = failed): with two connected peers consecutive successful sends must alternate", what, t),
+            );
+        }
+    } else if world::panics().is_empty() && !v.truncated {
+        v.violate("reconnect/app-stuck", format!("{}: {:?}", what, o));
+    }
+    v.outcome_hash = rc::fnv(o.join("|").as_bytes());
+    e3::finish(v)
+}
+
 fn pj(p: &Params) -> Value {
     json!({"type": p.ty.name(), "peers": p.peers, "shape": p.shape, "wmode": p.wmode, "early_sends": p.early_sends, "policy": p.policy})
 }
@@ -245,6 +336,10 @@ pub fn run(tier: Tier, replay: Option<String>) -> i32 {
     if let Some(path) = replay {
         let v: Value = serde_json::from_str(&std::fs::read_to_string(&path).expect("read")).expect("json");
         return crate::replay::replay_e3(&v, |p| {
+            if p["scenario"] == "reconnect" {
+                let (ty, o, pol) = (Ty::from_name(p["type"].as_str()?)?, p["observed"].as_bool()?, p["policy"].as_u64()? as u8);
+                return Some(std::sync::Arc::new(move || reconnect_scenario(ty, o, pol)) as zvcore::explore::Scenario);
+            }
             let pr = pf(p)?;
             Some(std::sync::Arc::new(move || scenario(&pr)) as zvcore::explore::Scenario)
         });
@@ -282,13 +377,20 @@ pub fn run(tier: Tier, replay: Option<String>) -> i32 {
             }
         }
     }
+    for ty in [Ty::Push, Ty::Dealer, Ty::Req] {
+        for observed in [false, true] {
+            for policy in 0..3u8 {
+                jobs.push(e3::job(format!("C10/reconnect/{}/{}/policy{}", ty.name(), observed, policy), json!({"scenario":"reconnect","type":ty.name(),"observed":observed,"policy":policy}), tier.pick(1, 2), 100_000, move || reconnect_scenario(ty, observed, policy)));
+            }
+        }
+    }
     e3::run_jobs_into(&mut ck, jobs, false);
     let ex = ck.coverage.get("e3_executions").and_then(|v| v.as_u64()).unwrap_or(0);
     ck.cov("states", ck.coverage.get("e3_distinct_outcomes").and_then(|v| v.as_u64()).unwrap_or(0).max(1));
     ck.cov("transitions", ex);
     ck.cov("traces_validated_against_impl", ex);
     ck.cov("exhaustive", ck.coverage.get("e3_scenarios_capped").and_then(|v| v.as_u64()) == Some(0));
-    ck.cov("explanation", "PUSH, DEALER and REQ (REQ against echo peers with a recv between sends) x 0..2 (thorough 3) raw peers x 3 message shapes (1 frame / 3 frames with an empty one / 200 kB) x write mode of one connection (accept all / a few bytes per write / stall-then-resume as scripted environment events) x sends racing with the joins or not x 3 default policies, every schedule within the deviation bound (each attach is an actor the scheduler may run before, between or during sends; yield points after pop / after upsert / after rr push). Oracle evaluated at the very step send returns: exactly one peer's application bytes (bytes accepted by the pipe after greeting+READY) grew, by exactly the reference encoding of the message with nothing left in the framed writer; with all n peers joined any n consecutive successful sends hit n distinct peers; with no peer the send fails with ReturnToSender carrying identical frames and no wire grows. states = distinct observed outcomes; transitions = executions.");
+    ck.cov("explanation", "PUSH, DEALER and REQ (REQ against echo peers with a recv between sends) x 0..2 (thorough 3) raw peers x 3 message shapes (1 frame / 3 frames with an empty one / 200 kB) x write mode of one connection (accept all / a few bytes per write / stall-then-resume as scripted environment events) x sends racing with the joins or not x 3 default policies, every schedule within the deviation bound (each attach is an actor the scheduler may run before, between or during sends; yield points after pop / after upsert / after rr push). Oracle evaluated at the very step send returns: exactly one peer's application bytes (bytes accepted by the pipe after greeting+READY) grew, by exactly the reference encoding of the message with nothing left in the framed writer; with all n peers joined any n consecutive successful sends hit n distinct peers; with no peer the send fails with ReturnToSender carrying identical frames and no wire grows. Reconnect family: a peer with an announced identity dies (noticed through failing sends, or not yet noticed) and a new connection announces the same identity; afterwards consecutive successful sends must alternate strictly between the two connected peers. states = distinct observed outcomes; transitions = executions.");
     ck.assume("a send may legitimately fail or succeed while a peer is between its registration steps; rotation is judged over the phase after every attach has returned");
     ck.conclude()
 }
